@@ -60,6 +60,7 @@ bool anyOverlap(const vpsc::Rectangles &rs, std::string &why) {
     return false;
 }
 
+bool g_fixedRaw = false;   // replay-only: judge the 'fixed rectangles do not move' clause on every input (witness of F7)
 Verdict eval_remove(const Case &c) {
     Verdict v;
     BorderGuard g(c.xb, c.yb);
@@ -103,7 +104,9 @@ Verdict eval_remove(const Case &c) {
         double lo = 1e300, hi = -1e300, sum = 0;
         for (auto &r : c.rs) { lo = std::min({lo, r.x, r.y}); hi = std::max({hi, r.X, r.Y}); sum += (r.X - r.x) + (r.Y - r.y) + 2 * (c.xb + c.yb) + 4e-3; }
         double bound = (n - 1) * 2.0 * ((hi - lo) + sum) / 10000.0;
-        if (c.fixed.size() == 1 && bound < 0.005 * avg) {
+        if (g_fixedRaw) {
+            for (int f : c.fixed) { double mv = std::max(std::fabs(R.v[f]->getCentreX() - cx[f]), std::fabs(R.v[f]->getCentreY() - cy[f])); if (mv >= 0.01 * avg && v.ok) v.fail(fmt("fixed rectangle %d moved by %.6g, average size %.6g", f, mv, avg), "F7-fixed-is-only-weight-10000"); }
+        } else if (c.fixed.size() == 1 && bound < 0.005 * avg) {
             int f = c.fixed[0];
             double mv = std::max(std::fabs(R.v[f]->getCentreX() - cx[f]), std::fabs(R.v[f]->getCentreY() - cy[f]));
             v.cls("fixed-clause-judged");
@@ -220,6 +223,8 @@ int main(int argc, char **argv) {
     props.push_back({"C09.remove", 1.0,
         [] { Case c = gen_case(false); return record("C09.remove", c.str(), [&] { return eval_remove(c); }, true); },
         [](Reader &r) { return eval_remove(Case::parse(r)); }, nullptr});
+    props.push_back({"C09.fixedraw", 0, nullptr,
+        [](Reader &r) { g_fixedRaw = true; Verdict v = eval_remove(Case::parse(r)); g_fixedRaw = false; return v; }, nullptr});
     props.push_back({"C09.constraints", 0.5,
         [] { Case c = gen_case(true); return record("C09.constraints", c.str(), [&] { return eval_constraints(c); }, true); },
         [](Reader &r) { return eval_constraints(Case::parse(r)); }, nullptr});
